@@ -151,7 +151,7 @@ theorem decreaseBy_le (w : Window) (n : Nat) (h : w.val ≤ 2147483647) : (w.dec
   split
   · next v hv =>
     split at hv
-    · next hi => cases hv; simp [inI32, I32_MAX] at hi; exact hi.2
+    · next hi => cases hv; simp [inI32, I32_MAX] at hi; exact of_decide_eq_true hi.2
     · cases hv
   · exact h
 theorem increaseBy_le (w : Window) (n : Nat) (h : w.val ≤ 2147483647) : (w.increaseBy n).1.val ≤ 2147483647 := by
@@ -161,7 +161,7 @@ theorem increaseBy_le (w : Window) (n : Nat) (h : w.val ≤ 2147483647) : (w.inc
     split at hw
     · next v hv =>
       split at hv
-      · next hi => cases hv; cases hw; simp [inI32, I32_MAX] at hi; exact hi.2
+      · next hi => cases hv; cases hw; simp [inI32, I32_MAX] at hi; exact of_decide_eq_true hi.2
       · cases hv
     · cases hw
   · exact h
@@ -198,10 +198,13 @@ syntax "lt_side" : tactic
 macro_rules | `(tactic| lt_side) => `(tactic| (intro _; rfl))
 macro_rules | `(tactic| lt_side) => `(tactic| (intro _; inert_tac))
 macro_rules | `(tactic| lt_side) => `(tactic| exact ⟨rfl, rfl⟩)
-macro_rules | `(tactic| lt_side) => `(tactic| (intro _ hk; simp only [List.mem_cons, List.mem_singleton, List.not_mem_nil, or_false, List.mem_nil_iff] at hk ⊢; first | exact hk | omega | simp [hk] | (rcases hk with hk | hk <;> simp [hk])))
-macro_rules | `(tactic| lt_side) => `(tactic| (intro _ hk; exact hk))
-macro_rules | `(tactic| lt_side) => `(tactic| (intro _ hk; cases hk))
 macro_rules | `(tactic| lt_side) => `(tactic| assumption)
+/-- `∀ k ∈ ks', k ∈ ks` -/
+macro "lt_sub" : tactic => `(tactic| first
+  | exact (fun _ h => h)
+  | (intro _ hk; exact absurd hk List.not_mem_nil)
+  | (intro x hx; simp only [List.mem_cons, List.mem_nil_iff, or_false, List.not_mem_nil, List.mem_singleton] at hx ⊢; omega))
+macro_rules | `(tactic| lt_side) => `(tactic| lt_sub)
 
 open Lean Elab Tactic Meta in
 /-- goal `LT ks s0 (f … s …)` (possibly under `.1`): peel `f` with the lemma `f_lt` found by name -/
